@@ -23,8 +23,13 @@ CHAIN = 6140
 
 MC_QUICK = ["MC_arch_q.cfg", "MC_gc_q.cfg", "MC_trusted.cfg"]
 MC_THOROUGH = ["MC_arch.cfg", "MC_gc.cfg", "MC_gc_p2.cfg", "MC_trusted.cfg", "MC_arch_p4.cfg"]
-DEVIATIONS = ["MC_trusted_dev_TrustedInit.cfg", "MC_gc_dev_GCLastPage.cfg", "MC_arch_dev_ResetKeepsPages.cfg",
-              "MC_arch_dev_ResetKeepsLRU.cfg", "MC_arch_dev_NoPrevCopy.cfg", "MC_arch_dev_StoredFromBlock.cfg"]
+# named deviations of the model: checked on HeaderHashesImpl (an invariant must catch them) ...
+DEVIATIONS = ["MC_gc_dev_GCLastPage.cfg"]
+DEVIATIONS_T = ["MC_trusted_dev_TrustedInit.cfg", "MC_arch_dev_ResetKeepsPages.cfg", "MC_arch_dev_ResetKeepsLRU.cfg",
+                "MC_arch_dev_NoPrevCopy.cfg", "MC_arch_dev_StoredFromBlock.cfg"]
+# ... or on HeaderHashesSim, which also prints the schedule of the counterexample: it is replayed on the real node
+CE = [("CE_trusted_TrustedInit.cfg", "trusted"), ("CE_arch_ResetKeepsPages.cfg", "arch"), ("CE_arch_ResetKeepsLRU.cfg", "arch"),
+      ("CE_arch_NoPrevCopy.cfg", "arch"), ("CE_arch_StoredFromBlock.cfg", "arch")]
 
 RULE_EXT = ("headerhashes extension: cases = operations (AddHeaders batches of 1..2500 headers crossing the 2000 boundary in every "
             "phase, AddBlock runs, flush+GC, clean stop, crash at a chosen batch, Reset across a page boundary, lookup sweeps) "
@@ -187,7 +192,19 @@ def run_ext(ctx):
         m = re.search(r"Invariant (\w+) is violated", r["out"])
         return cfg, (m.group(1) if m else None), r.get("error")
 
+    def ce(cfg):
+        r = ctx.tlc(ctx.spec_scratch("headerhashes"), "HeaderHashesSim.tla", cfg, 600, workers=2, tag="ce-" + cfg.replace(".cfg", ""))
+        out = []
+        for line in r["out"].splitlines():
+            i = line.find("@@CE@@")
+            if i >= 0:
+                js = vlib.extract_tla_string(line[i + 6:])
+                if js:
+                    out.append(json.loads(js))
+        return cfg, out, r.get("error")
+
     ctx.spec_scratch("headerhashes")
+    ce_futs = [(pool.submit(ce, cfg), kind) for cfg, kind in CE]
     # 2. schedules generated by TLC
     worlds = []
     n_each = {"arch": 2, "gc": 2, "trusted": 3} if q else {"arch": 10, "gc": 8, "trusted": 14}
@@ -211,8 +228,30 @@ def run_ext(ctx):
             worlds.append(w)
     if not worlds:
         raise vlib.Inconclusive("no schedules generated")
+    # counterexamples of the named deviations, as schedules (shortest first; for the trusted start a few per trusted index)
+    caught = {}
+    for f, kind in ce_futs:
+        cfg, ces, err = f.result()
+        name = cfg.replace("CE_", "").replace(".cfg", "")
+        if not ces:
+            raise vlib.Inconclusive("named deviation %s not detected by the HeaderHashesImpl invariants (vacuous model): %s" % (cfg, err))
+        caught[name] = sorted({b for c in ces for b in c["bad"]})
+        ces.sort(key=lambda c: (len(c["hist"]), json.dumps(c["hist"])))
+        per, taken = {}, []
+        for c in ces:
+            t = c["hist"][0]["t"]
+            if per.get(t, 0) < (2 if q else 8):
+                per[t] = per.get(t, 0) + 1
+                taken.append(c)
+        for c in taken:
+            w = to_real(c["hist"], kind)
+            w["src"] = "ce:" + name
+            top = max([x.get("to", 0) for x in w["sched"]] + [w["t"]])
+            w["sched"] = w["sched"] + [{"op": "flush"}, {"op": "crash", "at": ""}, {"op": "look", "i": 0},
+                                       {"op": "hdr", "to": min(CHAIN - 40, top + 2100)}, {"op": "flush"}, {"op": "stop"}]
+            worlds.append(w)
     mc_futs = [pool.submit(mc, cfg) for cfg in (MC_QUICK if q else MC_THOROUGH)]
-    dev_futs = [pool.submit(dev, cfg) for cfg in DEVIATIONS]
+    dev_futs = [pool.submit(dev, cfg) for cfg in (DEVIATIONS if q else DEVIATIONS + DEVIATIONS_T)]
     # 3. seeded random and hand-made worlds
     hw = hand_worlds()
     worlds += hw[:2] + hw[3:] if q else hw
@@ -237,7 +276,6 @@ def run_ext(ctx):
     # join the model runs
     for f in mc_futs:
         f.result()
-    caught = {}
     for f in dev_futs:
         cfg, inv, err = f.result()
         if not inv:
